@@ -29,9 +29,13 @@ PLAN = [
              "C10-e": "centre and scale use the statement's u and v"}),
     ("C12", {"C12-b": "λ is the Gamma(dod) quantile of its own coordinate"}),
     ("C14", {"C14-c": "each coordinate's value enters one stage only (independence of the stages' inputs)"}),
-    ("C20", {"C20-a": "for T = f64 the scalar operations these formulas are written in (powf, sqrt, ln, exp, cos, sin, …) are std's"}),
 ]
 
 
 def run(ctx):
     run_restated(ctx, PLAN)
+    # for T = f64 the scalar operations the stage formulas are written in are std's (restated from C20-a, for exactly the operations
+    # reachable from the sampling routine and the table builder)
+    from .restate import restate_f64_primitives
+    from .kernels import builder_roles
+    restate_f64_primitives(ctx, [lambda: ctx.roles.sample(), lambda: builder_roles(ctx)[2]], "the sampling routine and the table builder")
